@@ -939,7 +939,9 @@ def run(res, tier, seed, proofs_ok):
     tie_trcl(res, rng, 400 if quick else 4000)
     tie_implicit(res, rng, 200 if quick else 2000)
     tie_lattice(res, rng, 40 if quick else 400)
-    sweep_decks(res, rng, 70 if quick else 900)
+    with PotRecorder() as recorder:
+        sweep_decks(res, rng, 70 if quick else 900)
+    tie_pot(res, recorder.records)
 
 
 def report_tie(res, name, n, bad, errs, describe):
@@ -1359,6 +1361,132 @@ def tie_lattice(res, rng, n):
     report_tie(res, 'compose(call sites)', len(calls), bad, errs,
                lambda i: (f'compose_transform{calls[i][:2]}',
                           {'observed': str(calls[i])}))
+
+
+# ---------------------------------------------------------------------------
+# apply_trcl / pot_transform recorded on whole conversions
+# ---------------------------------------------------------------------------
+
+class PotRecorder:
+    '''Wraps CellConversion.apply_trcl while decks are converted and records
+    (TRCL list, expression, new_surf_key, dictionary entries) before and after.'''
+
+    def __init__(self):
+        self.records = []
+
+    def __enter__(self):
+        from t4_geom_convert.Kernel.Volume import CellConversion as CC
+        self.cc = CC
+        self.orig = CC.CellConversion.apply_trcl
+        rec = self
+
+        def wrapped(conv, trcls, geometry):
+            before = rec.snapshot(conv, geometry)
+            key0 = conv.new_surf_key
+            out = rec.orig(conv, trcls, geometry)
+            if before is not None and trcls:
+                news = []
+                ok = True
+                for k in range(conv.new_surf_key, key0, -1):
+                    entry = rec.entry(conv.dic_surf_mcnp[k])
+                    ok = ok and entry is not None
+                    news.append((k, entry))
+                tree1 = rec.tree(out)
+                if ok and tree1 is not None:
+                    rec.records.append((
+                        [[float(v) for v in t] for t in trcls], before[0],
+                        key0, before[1], tree1, conv.new_surf_key, news))
+            return out
+        CC.CellConversion.apply_trcl = wrapped
+        return self
+
+    def __exit__(self, *exc):
+        self.cc.CellConversion.apply_trcl = self.orig
+
+    def tree(self, node):
+        from MIP.geom.semantics import Surface
+        from t4_geom_convert.Kernel.Volume.CellMCNP import CellRef
+        if isinstance(node, Surface):
+            return None if node.sub is not None else ('s', int(node))
+        if isinstance(node, int):
+            return ('s', node)
+        if isinstance(node, CellRef):
+            return ('c', int(node.cell))
+        if isinstance(node, (tuple, list)):
+            if node[0] == '^':
+                return ('n', int(node[1]))
+            args = [self.tree(a) for a in node[1:]]
+            if any(a is None for a in args) or node[0] not in ('*', ':'):
+                return None
+            return (node[0], args)
+        return None
+
+    def entry(self, parts):
+        out = []
+        for surf, side in parts:
+            ms = frame_form(surf)
+            if ms is None:
+                return None
+            out.append((ms, int(side)))
+        return out
+
+    def leaves(self, tree, acc):
+        if tree[0] == 's':
+            acc.add(abs(tree[1]))
+        elif tree[0] in ('*', ':'):
+            for a in tree[1]:
+                self.leaves(a, acc)
+        return acc
+
+    def snapshot(self, conv, geometry):
+        tree = self.tree(geometry)
+        if tree is None:
+            return None
+        table = []
+        for k in sorted(self.leaves(tree, set())):
+            if k not in conv.dic_surf_mcnp:
+                return None
+            entry = self.entry(conv.dic_surf_mcnp[k])
+            if entry is None:
+                return None
+            table.append((k, entry))
+        return tree, table
+
+
+def ctree(tree):
+    if tree[0] == 's':
+        return f'(GSurf {cz(tree[1])})'
+    if tree[0] == 'c':
+        return f'(GCell {cz(tree[1])})'
+    if tree[0] == 'n':
+        return f'(GCompl {cz(tree[1])})'
+    op = 'GInter' if tree[0] == '*' else 'GUnion'
+    return f'(GOp {op} {clist(ctree(a) for a in tree[1])})'
+
+
+def ctable(table):
+    return clist(cpair(cz(k), clist(cpair(cmsurf(ms), cz(sd))
+                                    for ms, sd in entry))
+                 for k, entry in table)
+
+
+def tie_pot(res, records):
+    cases = []
+    for trcls, tree0, key0, table, tree1, key1, news in records:
+        cases.append(cpair(clist(cfl(t) for t in trcls), ctree(tree0),
+                           cz(key0), ctable(table),
+                           cpair(ctree(tree1), cz(key1), ctable(news))))
+        res.seen(('pot', str(tree0), trcls))
+        res.count(f'pot:leaves={min(len(news), 6)}')
+    bad, errs = common.run_case_files(
+        'c04_pot', HEADER,
+        'list (list float) * gtree * Z * list (Z * list (msurf float * Z)) '
+        '* (gtree * Z * list (Z * list (msurf float * Z)))',
+        'check_pot', cases)
+    report_tie(res, 'apply_trcl', len(cases), bad, errs,
+               lambda i: (f'apply_trcl {records[i][1]} by {records[i][0]} -> '
+                          f'{records[i][4]}',
+                          {'observed': str(records[i])[:1500]}))
 
 
 def gen_tokens(rng):
